@@ -18,9 +18,12 @@ Case = {"cfg": "graph"|"ds"|"cg"|"ro", "method": "GET"|"POST"|"POST_FORM", "fmt"
 Terms are small integers (vocabulary below); graph names 90…; 0 = the default graph / "no graph named";
 None in a pattern = wildcard; `remove` with g None = no context given (every graph).
 
-Observation per op: "<result> ; <endpoint quads> | <endpoint graph names> ; SENT <requests>" — the API result, what the
-BACKING dataset really contains afterwards, and every request text the endpoint received for the op DECODED by the
-Lean reader (lean/RV/C20/Text.lean); compared with the Lean model (state machine + predicted requests).
+Observation per op: "<result> ; <endpoint quads> | <endpoint graph names> ; SENT <requests> ; HTTP <requests> ; RES <answers>" —
+the API result, what the BACKING dataset really contains afterwards, every request text the endpoint received for the op
+DECODED by the Lean reader (lean/RV/C20/Text.lean), every request AS IT ARRIVED read by the endpoint itself (operation,
+carrier, path, Accept, parameters; model: lean/RV/C20/Conn.lean), and for reads every results document sent + the rows
+rdflib's parser makes of it (model: lean/RV/C20/Result.lean); compared with the Lean model (state machine + predicted
+requests, assembled and read back + predicted answers, written and parsed).
 Property oracle (independent of Lean), see `run_impl`: a local mirror driven by the same calls must equal
 the backing dataset at every commit boundary (autocommit: after every write), uncommitted writes are
 invisible until commit / the next non-dirty read, rollback discards exactly them, every read returns
@@ -43,7 +46,7 @@ warnings.filterwarnings("ignore", category=DeprecationWarning)
 warnings.filterwarnings("ignore", category=UserWarning)
 
 ID = "C20"
-LEAN_TARGETS = ["RV.C20.Props", "RV.C20.TextProps", "RV.C20.ValuesProps", "RV.C20.Audit"]
+LEAN_TARGETS = ["RV.C20.Props", "RV.C20.TextProps", "RV.C20.ValuesProps", "RV.C20.ConnProps", "RV.C20.ResultProps", "RV.C20.EndToEnd", "RV.C20.Audit"]
 AUDIT = "RV/C20/Audit.lean"
 DRIVER = "drv_c20"
 CASES = {"quick": 600, "thorough": 12000, "search": 4000}
@@ -65,8 +68,11 @@ ASSUMPTIONS = [
     "object of ANOTHER store as fourth element is by design copied into the dataset and is not driven",
 ]
 TRUSTED = ["harness/c20.py generators, canonicalisation and the mapping of Graph/Dataset/ConjunctiveGraph calls to "
-           "store-level contexts", "the reader of lean/RV/C20/Text.lean as the meaning of the SPARQL fragment the store emits", "harness/c20_endpoint.py (loop-back endpoint)", "lean/RV/C20/Drive.lean line protocol",
-           "HTTP transport itself (sockets, status codes, time-outs) is not modelled"]
+           "store-level contexts", "the reader of lean/RV/C20/Text.lean as the meaning of the SPARQL fragment the store emits", "the protocol reader `serverRead` of lean/RV/C20/Conn.lean and the W3C documents `wireJson`/`wireXml` of lean/RV/C20/Result.lean "
+           "as the specification of the transport / results layer",
+           "harness/c20_endpoint.py (loop-back endpoint)", "lean/RV/C20/Drive.lean line protocol",
+           "HTTP below urllib.request.urlopen (sockets, status codes, time-outs, header capitalisation, default form "
+           "Content-Type) and the text level of json.loads / expat are not modelled"]
 
 E = "http://e/"
 IRIS = {1: URIRef(E + "s1"), 2: URIRef(E + "s2"), 3: URIRef("http://e/é/ü"), 4: URIRef("urn:x:y"),
@@ -107,7 +113,31 @@ def TABLES():
             "namespace RV.C20.Tables\n\n"
             "/-- `rdflib.term._invalid_uri_chars`: `URIRef.n3()` raises when one of them occurs -/\n"
             f"def invalidUriChars : List Char := [{chars}]\n\n"
+            + _mime_tables() +
             "end RV.C20.Tables\n")
+
+
+def _mime_tables():
+    """the three tables `SPARQLConnector.response_mime_types` reads: rdflib.util's two maps and the names of the
+    registered ResultParser plugins (sorted: the registry's order has no meaning)"""
+    from rdflib.plugin import plugins
+    from rdflib.query import ResultParser
+    from rdflib.util import FORMAT_MIMETYPE_MAP, RESPONSE_TABLE_FORMAT_MIMETYPE_MAP
+
+    def q(x):
+        return '"' + str(x).replace("\\", "\\\\").replace('"', '\\"') + '"'
+
+    def tab(d):
+        return "[" + ", ".join(f"({q(k)}, [{', '.join(q(v) for v in vs)}])" for k, vs in d.items()) + "]"
+    names = sorted({p.name for p in plugins(kind=ResultParser)})
+    return ("/-- `rdflib.util.FORMAT_MIMETYPE_MAP` -/\n"
+            f"def formatMimetypeMap : List (String × List String) := {tab(FORMAT_MIMETYPE_MAP)}\n\n"
+            "/-- `rdflib.util.RESPONSE_TABLE_FORMAT_MIMETYPE_MAP` -/\n"
+            f"def responseTableMimetypeMap : List (String × List String) := {tab(RESPONSE_TABLE_FORMAT_MIMETYPE_MAP)}\n\n"
+            "/-- names of the registered `ResultParser` plugins -/\n"
+            f"def resultParserNames : List String := [{', '.join(q(n) for n in names)}]\n\n"
+            "/-- `str(rdflib.graph.DATASET_DEFAULT_GRAPH_ID)` -/\n"
+            f"def datasetDefaultGraphId : List Char := ({q(str(DATASET_DEFAULT_GRAPH_ID))} : String).toList\n\n")
 
 
 def tkey(t):
@@ -430,6 +460,7 @@ def model_lines(case):
     ro = cfg == "ro"
     lines = list(VOCAB_LINES)
     lines.append(f"reset {int(case['autocommit'])} {int(case['dirty'])} {int(case['hook'])} {int(ro)}")
+    lines.append(conn_line(case))
     for q in case["init"]:
         lines.append("init " + " ".join(str(x) for x in q[:3]) + " " + _g(q[3]))
     for g in case.get("ginit", []):
@@ -440,7 +471,119 @@ def model_lines(case):
             lines.append("obs")
             lines.append("sent")
             lines.append("senttext")
+            lines.append("senthttp")
+            lines.append("sentres")
     return lines
+
+
+# ------------------------------------------------------------------ result layer (lean/RV/C20/Result.lean)
+
+RES_OPS = ("triples", "len", "contains", "contexts", "proj")     # reads whose ANSWER the model predicts
+_RES_NS = "{http://www.w3.org/2005/sparql-results#}"
+_XML_LANG = "{http://www.w3.org/XML/1998/namespace}lang"
+
+
+def canon_j(v):
+    """canonical form of a JSON value (mirrors `canonJ` of lean/RV/C20/Drive.lean)"""
+    if v is None:
+        return "N"
+    if v is True:
+        return "T"
+    if v is False:
+        return "F"
+    if isinstance(v, str):
+        return "s" + _cps(v)
+    if isinstance(v, list):
+        return "[" + ",".join(canon_j(x) for x in v) + "]"
+    if isinstance(v, dict):
+        return "{" + ",".join(sorted(k + ":" + canon_j(x) for k, x in v.items())) + "}"
+    return "#"
+
+
+def canon_jdoc(d):
+    """the same with the `results.bindings` array sorted (`canonJDoc`)"""
+    if not isinstance(d, dict):
+        return canon_j(d)
+    out = []
+    for k, v in d.items():
+        if k == "results" and isinstance(v, dict):
+            inner = []
+            for k2, v2 in v.items():
+                if k2 == "bindings" and isinstance(v2, list):
+                    inner.append(k2 + ":[" + ",".join(sorted(canon_j(x) for x in v2)) + "]")
+                else:
+                    inner.append(k2 + ":" + canon_j(v2))
+            out.append(k + ":{" + ",".join(sorted(inner)) + "}")
+        else:
+            out.append(k + ":" + canon_j(v))
+    return "{" + ",".join(sorted(out)) + "}"
+
+
+def canon_x(e):
+    """canonical form of an element tree (`canonX`): local names, attributes sorted, children of `results` sorted"""
+    tag = e.tag[len(_RES_NS):] if e.tag.startswith(_RES_NS) else e.tag
+    attrs = sorted(("xml:lang" if k == _XML_LANG else k) + "=" + _cps(v) for k, v in e.attrib.items())
+    kids = [canon_x(c) for c in e]
+    if tag == "results":
+        kids.sort()
+    return "<" + tag + " " + ",".join(attrs) + " " + _cps(e.text or "") + " [" + "".join(kids) + "]>"
+
+
+def _rterm(t):
+    if t is None:
+        return "-"
+    if isinstance(t, BNode):
+        return "B" + _cps(str(t))
+    if isinstance(t, Literal):
+        if t.language is not None:
+            return "L" + _cps(str(t)) + "@" + _cps(t.language)
+        if t.datatype is not None:
+            return "T" + _cps(str(t)) + "^" + _cps(str(t.datatype))
+        return "P" + _cps(str(t))
+    return "I" + _cps(str(t))
+
+
+def canon_res(res):
+    """what rdflib's result parser made of a document (`showResult`): rows aligned to the variables, sorted"""
+    if res.type == "ASK":
+        return "A true" if res.askAnswer else "A false"
+    rows = sorted(" ".join(_rterm(c) for c in row) for row in res)
+    return "S " + ",".join(str(v) for v in res.vars) + " | " + " ; ".join(rows)
+
+
+def response_obs(fmt, body):
+    """`<document as sent, canonical> => <as parsed by rdflib's result parser, canonical>`"""
+    import json
+    from io import BytesIO
+    from xml.etree import ElementTree
+    from rdflib.query import Result
+    try:
+        if fmt == "json":
+            doc = "J " + canon_jdoc(json.loads(body.decode("utf-8")))
+            res = Result.parse(BytesIO(body), content_type="application/sparql-results+json")
+        else:
+            doc = "X " + canon_x(ElementTree.fromstring(body))
+            res = Result.parse(BytesIO(body), content_type="application/sparql-results+xml")
+        return doc + " => " + canon_res(res)
+    except Exception as e:  # noqa: BLE001
+        return f"unparsable({type(e).__name__})"
+
+
+AUTH_VALUE = "Basic dXNlcjpwOncgZA=="     # base64("user:p:w d")
+
+
+def endpoint_paths(case):
+    """(query endpoint, update endpoint) relative to the loop-back server's base URL"""
+    return ("/sparql", "/sparql") if case.get("open", 0) == 2 else ("/query", "/update")
+
+
+def conn_line(case):
+    """the connector configuration for the transport model (lean/RV/C20/Conn.lean)"""
+    qp, up = endpoint_paths(case)
+    auth = _cps(AUTH_VALUE) if case.get("auth") else "-"
+    up_ = "_" if case["cfg"] == "ro" else _cps(up)        # a read-only SPARQLStore has no update endpoint
+    return (f"conn {case['method']} {_cps(qp)} {up_} {case['fmt']} {case.get('extra', 0)} {auth} "
+            f"{int(case.get('ca', True))}")
 
 
 def op_commands(case, op):
@@ -448,7 +591,9 @@ def op_commands(case, op):
     of another store = a look-up of the dataset's graphs + add)"""
     cfg = case["cfg"]
     ca = case.get("ca", True)
-    C = lambda kind, g: ctx_of(cfg, kind, g, ca)  # noqa: E731
+    # the graph is passed as the call names it; a store that is not context aware is mapped to the endpoint's default
+    # graph by the MODEL (`_is_contextual` in lean/RV/C20/Conn.lean, configured by the `conn` line)
+    C = lambda kind, g: ctx_of(cfg, kind, g, True)  # noqa: E731
     k = op[0]
     if k == "add":
         add = f"add {op[1]} {op[2]} {op[3]} {_g(C('write', op[4]))}"
@@ -480,7 +625,7 @@ def op_commands(case, op):
     if k in ("commit", "rollback"):
         return [k]
     if k == "nop":
-        return ["nop"]
+        return ["nop " + op[1]]
     if k == "triples":
         return [f"triples {_w(op[1])} {_w(op[2])} {_w(op[3])} {_g(C('read', op[4]))}"]
     if k == "proj":
@@ -513,9 +658,9 @@ def op_commands(case, op):
 
 def _model_blocks(case, out):
     """per op: (result, endpoint obs, predicted requests, predicted request texts)"""
-    n0 = len(VOCAB_LINES or vocab_lines()) + 1 + len(case["init"]) + len(case.get("ginit", []))
+    n0 = len(VOCAB_LINES or vocab_lines()) + 2 + len(case["init"]) + len(case.get("ginit", []))
     body = out[n0:]
-    return [tuple(body[i:i + 4]) for i in range(0, len(body) - 3, 4)]
+    return [tuple(body[i:i + 6]) for i in range(0, len(body) - 5, 6)]
 
 
 def _merge_blocks(case, blocks):
@@ -529,7 +674,10 @@ def _merge_blocks(case, blocks):
             break
         sent = [b[2] for b in part if b[2] != "-"]
         txt = [b[3] for b in part if b[3] != "none"]
-        res.append((part[-1][0], part[-1][1], " | ".join(sent) if sent else "-", " ".join(txt) if txt else "none"))
+        http = [b[4] for b in part if b[4] != "-"]
+        ans = [b[5] for b in part if b[5] != "-"]
+        res.append((part[-1][0], part[-1][1], " | ".join(sent) if sent else "-", " ".join(txt) if txt else "none",
+                    " | ".join(http) if http else "-", " | ".join(ans) if ans else "-"))
     return res
 
 
@@ -548,7 +696,7 @@ def _blank_op(case, op):
 
 def select_model_obs(case, out):
     res = []
-    for op, (o, e, sent, _txt) in zip(case["ops"], _merge_blocks(case, _model_blocks(case, out))):
+    for op, (o, e, sent, _txt, http, ans) in zip(case["ops"], _merge_blocks(case, _model_blocks(case, out))):
         b = _blank_op(case, op)
         if b and sent != "-":
             sent = " | ".join(("Q?" if r.startswith("Q") else r) if b == "q" else ("U?" if r.startswith("U") else r)
@@ -557,7 +705,7 @@ def select_model_obs(case, out):
             pos = PROJ_POS[op[1]]
             rows = {tuple(int(t.split(",")[j]) for j in pos) for t in o[2:].split(" ") if t}
             o = "P " + " ".join(",".join(map(str, x)) for x in sorted(rows))
-        res.append(f"{o} ; {e} ; SENT {sent}")
+        res.append(f"{o} ; {e} ; SENT {sent} ; HTTP {http} ; RES {ans if op[0] in RES_OPS else '~'}")
     return res
 
 
@@ -575,7 +723,10 @@ def ing_requests(case):
     return out
 
 
-def driver_session(case, captured):
+ASM_STATS = []
+
+
+def driver_session(case, captured, meta=None):
     """One run of the compiled Lean driver for this case: the model's predicted request texts (to be compared
     with the captured texts here) and the Lean READER applied to every captured request text.
     captured = per op a list of ("u", None, text) | ("q", graph-or-None, text).  Returns per op (decoded, texts)."""
@@ -595,11 +746,24 @@ def driver_session(case, captured):
     ings = ing_requests(case)
     for giri, text in ings:
         lines.append(f"ing {_cps(giri)} {_cps(text)}")
+    # the transport model assembles the HTTP request for every captured text under the configuration of that moment
+    n_pre_asm = len(lines)
+    flat_meta = [m for ms in (meta or []) for m in ms]
+    for m in flat_meta:
+        dg = "-" if m["dg"] is None else _cps(m["dg"])
+        lines.append(f"asm {m['cmethod']} {_cps(m['ep_path'])} {m['cfmt']} {case.get('extra', 0)} "
+                     f"{_cps(AUTH_VALUE) if case.get('auth') else '-'} {m['kind']} {dg} {_cps(m['text'])}")
     p = subprocess.run([exe], input="\n".join(lines) + "\n", stdout=subprocess.PIPE, stderr=subprocess.PIPE,
-                       text=True, timeout=60)
+                       text=True, timeout=60 * float(os.environ.get("VERIF_TIMEOUT_SCALE", "1") or 1))
     out = p.stdout.split("\n")
     if p.returncode != 0 or len(out) < len(lines):
         return None
+    # statistic: the request as it arrived (URL and body bytes) is byte for byte the one the Lean model assembles
+    same = 0
+    for m, o in zip(flat_meta, out[n_pre_asm:n_pre_asm + len(flat_meta)]):
+        body = "-" if m["raw_body"] is None else ("_" if not m["raw_body"] else ",".join(str(b) for b in m["raw_body"]))
+        same += int(o == f"{_cps(m['raw_path'])} {body}")
+    ASM_STATS.append((len(flat_meta), same))
     blocks = _merge_blocks(case, _model_blocks(case, out[:n_model]))
     dec = out[n_model:n_model + n_dec]
     # statistic: the Lean model of _insert_named_graph rewrites the caller's text character for character like the store
@@ -794,7 +958,7 @@ def run_impl(case):
              "axis_auth": int(bool(case.get("auth"))), "axis_sparql10": int(not case.get("sparql11", True)),
              "axis_not_context_aware": int(not ca), "axis_normalize_literals_off": int(not case.get("norm", True))}
     reached, answered = cfg == "ro", False
-    captured = []
+    captured, captured_meta, http_obs, res_obs = [], [], [], []
 
     def bump(k, n=1):
         stats[k] = stats.get(k, 0) + n
@@ -1047,7 +1211,7 @@ def run_impl(case):
         KB, KN = _kq(B), _kn(N)
         obs.append(f"{out} ; " + _fmt_quads([(_tid(s), _tid(p), _tid(o), _gid(g)) for s, p, o, g in B])
                    + " | " + _fmt_names([_gid(n) for n in N]))
-        reqs = []
+        reqs, metas, https = [], [], []
         for ent in ep.log[n_log:]:
             if "text" not in ent:
                 continue
@@ -1056,7 +1220,25 @@ def run_impl(case):
             else:
                 dg = ent.get("default-graph-uri", [])
                 reqs.append(("q", dg[0] if dg else None, ent["text"]))
+            # the request as a SPARQL 1.1 Protocol server understands it (parsed by the endpoint with urllib.parse,
+            # independently of the Lean reader): operation, carrier, path, Accept types, every parameter but the text
+            kind, dg_, text_ = reqs[-1]
+            metas.append({"kind": kind, "dg": dg_, "text": text_, "cmethod": cur["method"], "cfmt": cur["fmt"],
+                          "ep_path": ent["url_path"], "raw_path": ent["raw_path"], "raw_body": ent["raw_body"]})
+            acc = ",".join(sorted(x for x in ent["accept"].split(", ")))
+            ps = "&".join(sorted(f"{_cps(k_)}={_cps(v_)}" for k_, v_ in ent.get("params", [])
+                                 if k_ != ent.get("text_key")))
+            https.append(f"{'U' if kind == 'u' else 'Q'} {ent.get('via')} {ent['url_path']} a:{acc} p:{ps}")
+        # the result layer: every results document the endpoint sent for this read, and what rdflib's parser makes of it
+        if k in RES_OPS:
+            docs = [response_obs(ent.get("format"), ent["res_body"]) for ent in ep.log[n_log:] if "res_body" in ent]
+            res_obs.append(" | ".join(docs) if docs else "-")
+            bump("result_documents_compared", len(docs))
+        else:
+            res_obs.append("~")
         captured.append(reqs)
+        captured_meta.append(metas)
+        http_obs.append(" | ".join(https) if https else "-")
         if any(_tid(x) == UNKNOWN for q in B for x in q[:3]) or any(_gid(q[3]) == UNKNOWN for q in B):
             viol.append(f"term: after op {k_i} the endpoint holds a term that is not one of the terms written: "
                         f"{[q for q in B if UNKNOWN in [_tid(x) for x in q[:3]] + [_gid(q[3])]][:2]!r}")
@@ -1080,6 +1262,15 @@ def run_impl(case):
                 wrote = True
             except Exception as e:  # noqa: BLE001
                 viol.append(f"raise: local mirror refused op {k_i}: {type(e).__name__}: {e}")
+        elif cfg != "ro" and k == "set" and out == "Refused" and op[1] not in BNODES:
+            # Graph.set = remove((s, p, None)) then add((s, p, o)): the store accepted the remove call and refused
+            # only the add (blank-node object), so the local dataset receives the remove ("the same calls")
+            try:
+                s_, p_, _o, g_ = op[1:5]
+                tgt = mirror.top if (g_ == 0 and cfg != "graph") else view(mirror.top, g_)
+                tgt.remove((term(s_, True), term(p_, True), None))
+            except Exception as e:  # noqa: BLE001
+                viol.append(f"raise: local mirror refused the remove part of op {k_i}: {type(e).__name__}: {e}")
         KM, KMN = _kq(mirror.quads()), _kn(mirror.names())
 
         def same(tag, what):
@@ -1202,6 +1393,14 @@ def run_impl(case):
             if ent.get("x_header") != ("1" if extra & 2 else None):
                 viol.append(f"transport: op {k_i} extra request header arrived as {ent.get('x_header')!r}, "
                             f"the store was built with headers={kw.get('headers')}")
+            # SPARQL 1.1 Protocol: the dataset parameters change what a request means; the store never asks for any
+            # but default-graph-uri on queries (and the text parameter of GET / form requests)
+            allowed = {"x-extra"} | ({"default-graph-uri"} if ent["path"] == "/query" else set())
+            if ent.get("text_key"):
+                allowed.add(ent["text_key"])
+            odd = sorted({k_ for k_, _v in ent.get("params", [])} - allowed)
+            if odd:
+                viol.append(f"transport: op {k_i} request carries parameter(s) {odd} the call did not ask for")
             if ent["path"] == "/query" and len(ent.get("default-graph-uri", [])) > 1:
                 viol.append(f"transport: op {k_i} query sent with several default-graph-uri {ent['default-graph-uri']}")
             if ent.get("error") and exc is None:
@@ -1211,13 +1410,17 @@ def run_impl(case):
     #      what the model predicts, compared as part of obs), and where the model has a writer for it the
     #      captured text must be character for character the text the Lean WRITER produces
     del ING_STATS[:]
-    sess = driver_session(case, captured)
+    del ASM_STATS[:]
+    sess = driver_session(case, captured, captured_meta)
+    if ASM_STATS:
+        bump("http_requests_assembled_by_lean", ASM_STATS[0][0])
+        bump("http_requests_byte_identical_to_lean_assembly", ASM_STATS[0][1])
     if ING_STATS:
         bump("named_graph_rewrites", ING_STATS[0][0])
         bump("named_graph_rewrites_found_verbatim_in_a_sent_request", ING_STATS[0][1])
     for k_i, op in enumerate(case["ops"]):
         if sess is None:
-            obs[k_i] += " ; SENT no-driver"
+            obs[k_i] += " ; SENT no-driver ; HTTP " + http_obs[k_i] + " ; RES " + res_obs[k_i]
             continue
         dec, mtxt = sess[k_i]
         reqs = captured[k_i]
@@ -1234,7 +1437,7 @@ def run_impl(case):
                     bump("texts_compared_with_lean_writer")
                     bump("texts_identical_to_lean_writer", int(m == _cps(text)))
         bump("requests_decoded", len(reqs))
-        obs[k_i] += f" ; SENT {sent}"
+        obs[k_i] += f" ; SENT {sent} ; HTTP {http_obs[k_i]} ; RES {res_obs[k_i]}"
 
     _rdflib.NORMALIZE_LITERALS = norm_before
     return {"obs": obs, "viol": viol, "nontrivial": bool(reached and answered),
